@@ -90,3 +90,58 @@ fn error_from_scan_error(e: ScanError) -> (r: Error)
 fn cowstr_borrow<'b, 'a>(v: &'b CowStr<'a>) -> (r: CowStr<'b>)
     ensures r@ == v@, r.byte_len() == v.byte_len(),
 { CowStr { inner: std::borrow::Cow::Borrowed(v.inner.as_ref()) } }
+
+// ---- call-site shims used by next_impl ----
+
+// `Error::from_scan_error` as a map_err argument
+// (declared above as error_from_scan_error)
+
+// `SfTag::from_optional_cow(&tag)`: table lookup in a lazily built BTreeMap
+#[verifier::external_body]
+fn sftag_from_optional_cow(tag: &Option<CowTag<'_>>) -> (r: SfTag)
+    ensures (tag is None) == (r is None),
+{ unimplemented!() }
+
+// `tag.as_ref().map(|t| Cow::Owned(t.to_string()))`
+#[verifier::external_body]
+fn raw_tag_of<'a>(tag: &Option<CowTag<'_>>) -> (r: Option<CowStr<'a>>)
+    ensures (tag is None) == (r is None),
+{ unimplemented!() }
+
+// `!val.trim().is_empty()`
+#[verifier::external_body]
+fn cowstr_trim_is_empty(v: &CowStr<'_>) -> (r: bool)
+    ensures v@.len() == 0 ==> r,
+{ unimplemented!() }
+
+// `String::new().into()`
+#[verifier::external_body]
+fn cowstr_empty<'a>() -> (r: CowStr<'a>)
+    ensures r@.len() == 0, r.byte_len() == 0,
+{ unimplemented!() }
+
+// `Vec::resize(n, 0)` growing only
+#[verifier::external_body]
+fn vec_resize_zero(v: &mut Vec<usize>, n: usize)
+    requires n >= old(v)@.len(),
+    ensures
+        final(v)@.len() == n,
+        forall|j: int| 0 <= j < old(v)@.len() ==> final(v)@[j] == old(v)@[j],
+        forall|j: int| old(v)@.len() <= j < n ==> final(v)@[j] == 0,
+{ unimplemented!() }
+
+// `self.rec_stack.iter().any(|frame| frame.id == anchor_id)`
+#[verifier::external_body]
+fn any_frame_id(fs: &Vec<RecFrame<'_>>, id: usize) -> (r: bool)
+    ensures r == exists|j: int| 0 <= j < fs@.len() && (#[trigger] fs@[j]).id == id,
+{ unimplemented!() }
+
+// `crate::anchor_store::recursive_anchor_in_progress(id)`: thread-local state of the anchor store (C14), opaque
+#[verifier::external_body]
+fn recursive_anchor_in_progress(id: usize) -> bool { unimplemented!() }
+
+// `Error::multiple_documents(hint)`
+#[verifier::external_body]
+fn error_multiple_documents(hint: &'static str) -> (r: Error)
+    ensures r is MultipleDocuments,
+{ unimplemented!() }
